@@ -1,18 +1,23 @@
 /-
-C19 — property theorems.  (Helper lemmas live in `Lemmas.lean`, `Fifo.lean`, `Take.lean`.)
+C19 — property theorems.  (Helper lemmas live in `Lemmas.lean`, `Fifo.lean`, `Take.lean`, `Rate.lean`, `Stall.lean`.)
 
 Vocabulary: `run s ops` = final state and event trace of the operations `ops` (any interleaving
 of queueMsg / sendMsg / takeMsg / die / reset / clock ticks / MOTD end / PONG / echo-message
 (un)acknowledged / configuration changes — the filters are part of the configuration) from an
 arbitrary state `s`; `life c now ops` = the same from a freshly constructed `Irc`.
 -/
-import LimnoriaModel.C19.Take
+import LimnoriaModel.C19.Stall
 namespace C19
 open Py List
 
 /-- Facts about the *extracted* tables (`_high`, `_low`, the rate-limited command) on which the
 priority and JOIN-rate theorems rest; re-checked against what `/repo/src/irclib.py` says now. -/
 theorem tables_ok : TablesOk Gen.highPriority Gen.lowPriority Gen.rateLimitedCommand := by decide
+
+/-- "Urgent protocol messages before normal ones before bulk ones": PONG/MODE/KICK/NICK/PASS are
+in the high class, PRIVMSG/NOTICE/JOIN/WHO/PING in the low class, QUIT/PART/TOPIC/CAP in neither;
+the rate-limited command is JOIN — according to the tables extracted from the source now. -/
+theorem classes_ok : ClassesOk := by decide
 
 /-! ## no loss, no duplication -/
 
@@ -135,7 +140,7 @@ theorem priority (s : Irc) (h : Hist) (hi : FifoInv s h) (e : Ev) (m : Msg)
 theorem fast_first (s : Irc) (m : Msg) (rest : List Msg) (hf : s.fast = m :: rest) :
     ∃ e r, (takeMsg s).2 = e :: r ∧
       ((∃ o, e = .took true m o s.now) ∨ (∃ o, e = .lost true m o s.now) ∨ e = .dropped true m s.now) := by
-  unfold takeMsg takeAux
+  unfold takeMsg takeAux takeBody
   simp only [hf]
   split
   · exact ⟨_, _, rfl, Or.inl ⟨_, rfl⟩⟩
@@ -190,5 +195,241 @@ theorem quit_drains (s : Irc) (op : Op) (h : Ev.driverDie ∈ (step s op).2) :
   | pong => cases h
   | capEcho b => cases h
   | config c => simp [step] at h
+
+/-! ## throttle and JOIN rate -/
+
+/-- the state a freshly constructed `Irc` is in satisfies the invariants -/
+theorem init_inv (c : Cfg) (now : Nat) :
+    RateInv (init c now).1 ⟨c.throttle, c.joinLimit, none, none⟩ ∧ ClassInv (init c now).1.queue ∧
+    Rate.run ⟨0, 0, none, none⟩ (init c now).2 = some ⟨c.throttle, c.joinLimit, none, none⟩ := by
+  obtain ⟨a1, a2, a3, a4, a5⟩ := queueConnectMessages_frame (blank c now)
+  unfold init
+  dsimp only
+  refine ⟨⟨by rw [a1]; rfl, by rw [a1]; rfl, (by intro l h; cases h), by rw [a2, a3]; exact Nat.zero_le _,
+    (by intro l h; cases h), by rw [a4, a3]; exact Nat.zero_le _⟩, ?_, ?_⟩
+  · rw [a4]; exact ⟨by simp [blank, Queue.empty], by simp [blank, Queue.empty], by simp [blank, Queue.empty]⟩
+  · simp only [Rate.run, Rate.push]
+    exact Rate.run_neutral _ _ a5
+
+/-- **Every trace passes the rate checker** `Rate.run` (which fails as soon as a queued message is
+released ≤ throttleTime after the previous one, or a queued JOIN less than rateLimit.join after the
+previous queued JOIN, counted since the last `reset()` and with the rates in force at the release). -/
+theorem rates (c : Cfg) (now : Nat) (ops : List Op) :
+    ∃ st', Rate.run ⟨0, 0, none, none⟩ (life c now ops).2 = some st' := by
+  obtain ⟨hi, hc, h0⟩ := init_inv c now
+  obtain ⟨st', h1, _⟩ := run_rate tables_ok ops (init c now).1 _ hi hc
+  refine ⟨st', ?_⟩
+  unfold life
+  dsimp only
+  rw [Rate.run_append, h0]
+  exact h1
+
+/-- **Throttle / JOIN rate, spelled out.**  Take any two releases of queued messages in the trace
+of a life, with no `reset()` and no change of the rates between them.  They are more than the
+throttle time (in force when the first was released) apart, and if both are JOINs at least the
+JOIN rate limit apart. -/
+theorem throttle_join_rate (c : Cfg) (now : Nat) (ops : List Op) (a b d : List Ev)
+    (m1 o1 : Msg) (t1 : Nat) (m2 o2 : Msg) (t2 : Nat)
+    (htr : (life c now ops).2 = a ++ Ev.took false m1 o1 t1 :: (b ++ Ev.took false m2 o2 t2 :: d))
+    (hb : ∀ e ∈ b, e.keepsRates = true) :
+    ∃ st1, Rate.run ⟨0, 0, none, none⟩ a = some st1 ∧ t1 + st1.thr < t2 ∧
+      (isJoin m1 = true → isJoin m2 = true → t1 + st1.jl ≤ t2) := by
+  obtain ⟨st', h⟩ := rates c now ops
+  rw [htr] at h
+  exact Rate.run_spec _ st' a b d m1 o1 t1 m2 o2 t2 h hb
+
+/-- with a configuration that is never changed the rates are the configured ones:
+consecutive (and hence any two) releases of queued messages on one connection are more than
+`throttleTime` apart, queued JOINs at least `rateLimit.join` apart -/
+theorem throttle_join_rate_fixed (c : Cfg) (now : Nat) (ops : List Op)
+    (hops : ∀ op ∈ ops, op.isConfig = false) (a b d : List Ev)
+    (m1 o1 : Msg) (t1 : Nat) (m2 o2 : Msg) (t2 : Nat)
+    (htr : (life c now ops).2 = a ++ Ev.took false m1 o1 t1 :: (b ++ Ev.took false m2 o2 t2 :: d))
+    (hb : ∀ e ∈ b, ∀ ms, e ≠ Ev.discarded ms) :
+    t1 + c.throttle < t2 ∧ (isJoin m1 = true → isJoin m2 = true → t1 + c.joinLimit ≤ t2) := by
+  -- no config event after the first one
+  have hall : ∀ e ∈ (run (init c now).1 ops).2, e.isConfig = false := run_noConfig ops _ hops
+  obtain ⟨_, _, h0⟩ := init_inv c now
+  obtain ⟨_, _, _, _, a5⟩ := queueConnectMessages_frame (blank c now)
+  have hlife : (life c now ops).2 = Ev.config c.throttle c.joinLimit ::
+      ((queueConnectMessages (blank c now)).2 ++ (run (init c now).1 ops).2) := by
+    unfold life init; rfl
+  have hrest : ∀ e ∈ (queueConnectMessages (blank c now)).2 ++ (run (init c now).1 ops).2,
+      e.isConfig = false := by
+    intro e he
+    rcases mem_append.mp he with h | h
+    · have := a5 e h
+      cases e <;> first | rfl | cases this
+    · exact hall e h
+  -- `a` starts with the config event
+  cases a with
+  | nil => rw [hlife] at htr; injection htr with h1 _; cases h1
+  | cons e0 a' =>
+    rw [hlife] at htr
+    injection htr with h1 h2
+    subst h1
+    have hb' : ∀ e ∈ b, e.keepsRates = true := by
+      intro e he
+      have hm : e ∈ (queueConnectMessages (blank c now)).2 ++ (run (init c now).1 ops).2 := by
+        rw [h2]; simp [he]
+      have := hrest e hm
+      cases e with
+      | discarded ms => exact absurd rfl (hb _ he ms)
+      | config t j => cases this
+      | _ => rfl
+    have htr' : (life c now ops).2 = (Ev.config c.throttle c.joinLimit :: a') ++
+        Ev.took false m1 o1 t1 :: (b ++ Ev.took false m2 o2 t2 :: d) := by
+      rw [hlife, h2]; rfl
+    obtain ⟨st1, r1, r2, r3⟩ := throttle_join_rate c now ops _ b d m1 o1 t1 m2 o2 t2 htr' hb'
+    simp only [Rate.run, Rate.push] at r1
+    have ha' : ∀ e ∈ a', e.isConfig = false := by
+      intro e he
+      apply hrest e
+      rw [h2]; simp [he]
+    obtain ⟨f1, f2⟩ := Rate.run_rates_fixed a' _ st1 r1 ha'
+    rw [f1] at r2; rw [f2] at r3
+    exact ⟨r2, r3⟩
+
+/-! ## a filter returning None -/
+
+/-- **The recursion of the Python code**: `takeMsg` is the body with `takeMsg` itself as the
+recursive call (the bound used in the model is never reached). -/
+theorem takeMsg_recursive (s : Irc) : takeMsg s = takeBody takeMsg s := takeMsg_unfold s
+
+/-- **A filter returning None consumes only that message** (fast queue): the call carries on with
+the next message exactly as if the dropped one had never been queued. -/
+theorem filter_no_stall_fast (s : Irc) (m : Msg) (rest : List Msg) (hf : s.fast = m :: rest)
+    (n : Nat) (hd : runFilters s.cfg.filters s.nextOid m = (none, n)) :
+    takeMsg s =
+      ((takeMsg { s with fast := rest, nextOid := n }).1,
+       .dropped true m s.now :: (takeMsg { s with fast := rest, nextOid := n }).2) :=
+  takeMsg_drop_fast s m rest hf n hd
+
+/-- … and for a message of the regular queue: only that message is removed; the rest of the call
+is the call one would make right after a normal release (the messages behind wait one throttle
+interval, no longer; with `conservation` nothing else is consumed). -/
+theorem filter_no_stall_queue (s : Irc) (hf : s.fast = []) (hq : s.queue.isEmpty = false)
+    (ht : s.lastTake + s.cfg.throttle < s.now) (q' : Queue) (m : Msg)
+    (hdq : s.queue.dequeue s.cfg.joinLimit s.now = (q', .msg m))
+    (n : Nat) (hd : runFilters s.cfg.filters s.nextOid m = (none, n)) :
+    takeMsg s =
+      ((takeMsg { s with lastTake := s.now, queue := q', nextOid := n }).1,
+       .dropped false m s.now :: (takeMsg { s with lastTake := s.now, queue := q', nextOid := n }).2) :=
+  takeMsg_drop_queue s hf hq ht q' m hdq n hd
+
+/-! ## the one way a message is lost -/
+
+/-- A message is lost (`takeMsg` returns None after removing it) only when the object coming out
+of the filter chain already carries the `emulatedEcho` tag … -/
+theorem lost_only_tagged (s : Irc) (op : Op) (f : Bool) (src out : Msg) (t : Nat)
+    (h : Ev.lost f src out t ∈ (step s op).2) : out.oid ∈ s.echoed :=
+  (step_echo s op).1 f src out t h
+
+/-- … and the tagged objects are exactly objects that were handed to the driver before: in a
+whole life, every tagged object is the `out` of an earlier `took` event. -/
+theorem tagged_were_sent (c : Cfg) (now : Nat) (ops : List Op) :
+    EchoInv (life c now ops).1 (life c now ops).2 := by
+  unfold life
+  dsimp only
+  apply run_echoInv
+  intro o ho
+  have : (init c now).1.echoed = [] := by
+    unfold init queueConnectMessages
+    dsimp only
+    split
+    · rfl
+    · exact (sendConnect_echo _ _).1
+  rw [this] at ho; cases ho
+
+/-
+The statement one would like (`conservation` without the `lostOf` term):
+
+  theorem conservation_full (c : Cfg) (now : Nat) (ops : List Op) :
+      (accOf (life c now ops).2).Perm
+        (tookOf (life c now ops).2 ++ dropOf (life c now ops).2 ++
+          discOf (life c now ops).2 ++ (life c now ops).1.pending)
+
+is FALSE on the pinned tree (known finding C19-reused-object-lost): queueing the same `IrcMsg`
+object again after it was sent once loses it.  `conservation_partial` is what holds; the
+counter-example is `conservation_full_counterexample`.
+-/
+
+/-- conservation without a loss term, under the explicit condition that the trace has no `lost`
+event (by `lost_only_tagged` + `tagged_were_sent`: no object is handed to the filter chain's
+end twice as PRIVMSG/NOTICE/TAGMSG) -/
+theorem conservation_partial (c : Cfg) (now : Nat) (ops : List Op)
+    (hno : lostOf (life c now ops).2 = []) :
+    (accOf (life c now ops).2).Perm
+      (tookOf (life c now ops).2 ++ dropOf (life c now ops).2 ++
+        discOf (life c now ops).2 ++ (life c now ops).1.pending) := by
+  have := conservation_life c now ops
+  rw [hno, append_nil] at this
+  exact this
+
+/-! ## counter-example and non-vacuity -/
+
+def exCfg : Cfg :=
+  { throttle := 1, joinLimit := 3, dupRefuse := true, pingOn := false, pingInterval := 120,
+    connectMsgs := [⟨[], ['N', 'I', 'C', 'K'], [['b', 'o', 't']]⟩], filters := [] }
+
+def privmsg (n : Nat) : Msg :=
+  ⟨.ext n, ⟨[], ['P', 'R', 'I', 'V', 'M', 'S', 'G'], [['#', 'a'], ['h', 'i']]⟩⟩
+def joinMsg (n : Nat) : Msg := ⟨.ext n, ⟨[], ['J', 'O', 'I', 'N'], [['#', 'a']]⟩⟩
+def joinB (n : Nat) : Msg := ⟨.ext n, ⟨[], ['J', 'O', 'I', 'N'], [['#', 'b']]⟩⟩
+def quitMsg (n : Nat) : Msg := ⟨.ext n, ⟨[], ['Q', 'U', 'I', 'T'], []⟩⟩
+def modeMsg (n : Nat) : Msg := ⟨.ext n, ⟨[], ['M', 'O', 'D', 'E'], [['#', 'a']]⟩⟩
+
+/-- the witness of C19-reused-object-lost: the same object queued again after it was sent -/
+def reuseOps : List Op :=
+  [.connected, .take, .queue (privmsg 0), .tick 2, .take, .queue (privmsg 0), .tick 2, .take]
+
+/-- **Counter-example to conservation without a loss term**: both `queueMsg` calls answer True,
+one PRIVMSG is handed to the driver, the other is neither sent, dropped, discarded nor waiting. -/
+theorem conservation_full_counterexample :
+    ¬ (accOf (life exCfg 1000 reuseOps).2).Perm
+      (tookOf (life exCfg 1000 reuseOps).2 ++ dropOf (life exCfg 1000 reuseOps).2 ++
+        discOf (life exCfg 1000 reuseOps).2 ++ (life exCfg 1000 reuseOps).1.pending) := by decide
+
+example : lostOf (life exCfg 1000 reuseOps).2 = [privmsg 0] := by decide
+-- `lost_only_tagged` has instances:
+example : Ev.lost false (privmsg 0) (privmsg 0) 1004 ∈
+    (step (run (init exCfg 1000).1 (reuseOps.take 7)).1 .take).2 := by decide
+
+/-- a quitting bot with mixed traffic, a dropping filter and the clock moving -/
+def dropQuit : Filter := fun _ m => if m.cmd = ['W', 'H', 'O'] then none else some m
+def busyCfg : Cfg := { exCfg with filters := [dropQuit] }
+def whoMsg (n : Nat) : Msg := ⟨.ext n, ⟨[], ['W', 'H', 'O'], [['#', 'a']]⟩⟩
+def busyOps : List Op :=
+  [.connected, .take, .queue (privmsg 0), .queue (joinMsg 1), .queue (modeMsg 2), .queue (quitMsg 3),
+   .queue (joinB 4), .send (whoMsg 5), .send (modeMsg 6), .queue (privmsg 0), .die, .queue (privmsg 7),
+   .tick 2, .take, .tick 2, .take, .take, .tick 2, .take, .tick 2, .take, .tick 1, .take, .tick 1, .take,
+   .tick 2, .take, .tick 2, .take, .tick 2, .take]
+
+-- `conservation_partial` is not vacuous (and the run does release, drop, refuse and kill):
+example : lostOf (life busyCfg 1000 busyOps).2 = [] := by decide
+example : (tookOf (life busyCfg 1000 busyOps).2).length = 7 ∧ dropOf (life busyCfg 1000 busyOps).2 = [whoMsg 5] ∧
+    (life busyCfg 1000 busyOps).1.pending = [] ∧ Ev.driverDie ∈ (life busyCfg 1000 busyOps).2 := by decide
+-- `queueMsg_refused_iff`: both reasons occur (duplicate, quitting)
+example : Ev.refused false (privmsg 0) ∈ (life busyCfg 1000 busyOps).2 ∧
+    Ev.refused false (privmsg 7) ∈ (life busyCfg 1000 busyOps).2 := by decide
+-- `quit_drains`: a step that kills the driver, with both queues empty
+example : Ev.driverDie ∈ (step (run (init busyCfg 1000).1 (busyOps.take 30)).1 .take).2 ∧
+    (run (init busyCfg 1000).1 (busyOps.take 30)).1.pending = [] := by decide
+-- `priority`: a release from the regular queue with a lower class still waiting
+example : ∃ e ∈ (takeMsg (run (init busyCfg 1000).1 (busyOps.take 15)).1).2, e.srcQ = some (modeMsg 2) := by
+  decide
+-- `throttle_join_rate_fixed`: two queued JOINs are released (the second one held back once)
+example : ∃ a b d, (life busyCfg 1000 busyOps).2 =
+    a ++ Ev.took false (joinMsg 1) (joinMsg 1) 1010 :: (b ++ Ev.took false (joinB 4) (joinB 4) 1014 :: d) ∧
+    (∀ e ∈ b, ∀ ms, e ≠ Ev.discarded ms) := by
+  refine ⟨(life busyCfg 1000 busyOps).2.take 19, [Ev.rotated (joinB 4) 1012],
+    (life busyCfg 1000 busyOps).2.drop 22, by decide, ?_⟩
+  intro e he ms; simp at he; subst he; simp
+-- `filter_no_stall_fast`: the dropping filter hits the head of the fast queue
+example : (run (init busyCfg 1000).1 (busyOps.take 12)).1.fast = [whoMsg 5, modeMsg 6] ∧
+    runFilters busyCfg.filters 1 (whoMsg 5) = (none, 2) := by decide
+-- `filter_no_stall_queue`
+example : let s := (run (init { busyCfg with filters := [fun _ _ => none] } 1000).1 (busyOps.take 5)).1
+    s.fast = [] ∧ s.queue.isEmpty = false ∧ s.lastTake + s.cfg.throttle < s.now + 2 := by decide
 
 end C19
